@@ -6,8 +6,8 @@ programs of set/delete/insert/lock-keys(options)/aggressive locking/commit/rollb
 program of t1 with the store outcomes observed in the trace and its bookkeeping (flagged keys, lockedCnt, aggressive mode,
 current / previous keys, keys sent to the store) is compared with TxnProbe after every call, its final lock set with the
 MVCC audit. Oracle: after the clients' background work drained no key holds a lock of a finished transaction.
-Known findings F19 / F19b (a previous-attempt key dropped by a failing / skipped re-lock) are classified by a predicate
-computed from the executed steps, never by scenario id."""
+The replays of the fixed findings F19 / F19b (a previous-attempt key dropped by a failing / skipped re-lock) and F31 (a
+filtered Delete on a locked key) stay in the directed set and in the random classes as regression cases."""
 import os, time, json, random, subprocess
 import vlib, txnlab
 from vlib import Verdict
@@ -28,6 +28,47 @@ def conflict_pattern(rng, prog, txns, k):
     txns[name] = {"mode": "2pc", "pessimistic": False, "causal": False, "ops": []}
     prog += [{"t": "t1", "op": "fu_take"}, {"t": name, "op": "begin"}, {"t": name, "op": "set", "k": k, "v": "w-" + k}, {"t": name, "op": "commit"}]
     return True
+
+
+RE_KINDS = ["EpochNotMatch", "EpochNotMatch", "RegionNotFound", "NotLeader", "StaleCommand"]
+
+
+def decorate(rng, sc):
+    """environment classes on top of a program: fabricated region errors on requests of t1's client (the request is not
+    delivered, the client re-locates / re-batches and retries; never a loss) and a KVFilter on t1"""
+    if rng.random() < 0.3:
+        sc["faults"] = [{"at": a, "kind": "regionerr:" + rng.choice(RE_KINDS)} for a in sorted(rng.sample(range(0, 30), rng.choice([1, 2, 4, 6])))]
+    if rng.random() < 0.12:
+        sc["txns"]["t1"]["filter_keys"] = rng.sample(KEYS, rng.choice([1, 2, 3]))
+    return sc
+
+
+def gen_expiry_program(rng, idx):
+    """aggressive-locking retries after a pause longer than the managed lock TTL (25 ms): keys of the previous attempt must
+    be requested again although nothing else would force it; t1 alone (a contender would legitimately resolve expired locks)"""
+    prog = [{"t": "t1", "op": "begin"}]
+    L = lambda k, **kw: dict({"t": "t1", "op": "lock", "ks": [k], "wait": -1}, **kw)
+    if rng.random() < 0.3:
+        prog.append(L(rng.choice(KEYS)))
+    prog.append({"t": "t1", "op": "agg_start"})
+    ks = rng.sample(KEYS, rng.choice([1, 2, 3]))
+    opts = lambda: rng.choice([{}, {}, {"rv": True}, {"ce": True}])
+    for k in ks:
+        prog.append(L(k, **opts()))
+    for a in range(rng.choice([1, 2])):
+        prog.append({"t": "t1", "op": "agg_retry"})
+        pause = rng.random() < 0.7
+        if pause:
+            prog.append({"t": "t1", "op": "sleep", "wait": 45})
+        for k in rng.sample(ks, rng.randrange(1, len(ks) + 1)):
+            prog.append(L(k, **opts()))
+            if rng.random() < 0.2:
+                prog.append({"t": "t1", "op": "split", "k": rng.choice(KEYS)})
+    prog.append({"t": "t1", "op": rng.choice(["agg_done", "agg_done", "agg_cancel"])})
+    prog.append({"t": "t1", "op": rng.choice(["commit", "rollback"])})
+    return {"id": f"x{idx}", "backend": BACKEND, "splits": rng.sample(KEYS[1:], rng.choice([0, 1])), "preload": [{"k": k, "v": "old-" + k} for k in KEYS if rng.random() < 0.6],
+            "batch_size": 0, "txn": {"mode": "2pc", "ops": []}, "txns": {"t1": {"mode": rng.choice(["2pc", "async"]), "pessimistic": True, "causal": False, "ops": []}},
+            "program": prog, "keys": KEYS, "black_from": -1, "managed_ttl": 25}
 
 
 def gen_program(rng, idx):
@@ -93,8 +134,8 @@ def gen_program(rng, idx):
     prog.append({"t": "t1", "op": rng.choice(["commit", "commit", "rollback"])})
     if not t2_done:
         prog.append({"t": "t2", "op": rng.choice(["commit", "rollback"])})
-    return {"id": f"g{idx}", "backend": BACKEND, "splits": splits, "preload": preload, "batch_size": rng.choice([0, 0, 24]),
-            "txn": {"mode": "2pc", "ops": []}, "txns": txns, "program": prog, "keys": KEYS, "black_from": -1}
+    return decorate(rng, {"id": f"g{idx}", "backend": BACKEND, "splits": splits, "preload": preload, "batch_size": rng.choice([0, 0, 24]),
+            "txn": {"mode": "2pc", "ops": []}, "txns": txns, "program": prog, "keys": KEYS, "black_from": -1})
 
 
 def directed():
@@ -116,14 +157,40 @@ def directed():
     out[-1]["txns"]["t1"]["pessimistic"] = False
     A = lambda op: {"t": "t1", "op": op}
     L = lambda ks, **kw: dict({"t": "t1", "op": "lock", "ks": ks, "wait": -1}, **kw)
-    # F19: the re-lock of a previous-attempt key fails with key-exists (the insert in between sets PresumeKeyNotExists)
+    # F19 (fixed): the re-lock of a previous-attempt key fails with key-exists (the insert in between sets PresumeKeyNotExists)
     out.append(sc(8, B + [A("agg_start"), L(["k1"]), {"t": "t1", "op": "insert", "k": "k1", "v": "x"}, A("agg_retry"), L(["k1"], rv=True), A("agg_done"), A("rollback"), {"t": "t2", "op": "rollback"}]))
-    # F19b: the re-lock of a previous-attempt key with lock-only-if-exists finds the key absent
+    # F19b (fixed): the re-lock of a previous-attempt key with lock-only-if-exists finds the key absent
     out.append(sc(9, B + [A("agg_start"), L(["k4"]), A("agg_retry"), L(["k4"], rv=True, loie=True), A("agg_done"), A("rollback"), {"t": "t2", "op": "rollback"}]))
     out.append(sc(10, B + [A("agg_start"), L(["k4"]), L(["k2"]), A("agg_retry"), L(["k4"], rv=True, loie=True), L(["k2"], rv=True), A("agg_done"), A("commit"), {"t": "t2", "op": "rollback"}]))
     # neighbours that must stay clean: same shapes with the key present / without the presume flag / cancel instead of done
     out.append(sc(11, B + [A("agg_start"), L(["k1"]), A("agg_retry"), L(["k1"], rv=True, loie=True), A("agg_done"), A("rollback"), {"t": "t2", "op": "rollback"}]))
     out.append(sc(12, B + [A("agg_start"), L(["k1"]), L(["k2"]), A("agg_retry"), L(["k1"], rv=True), A("agg_cancel"), A("rollback"), {"t": "t2", "op": "rollback"}]))
+    # KVFilter: a filtered Delete on a locked key (finding), and its clean neighbours (filtered Set; Rollback; no lock)
+    for j, (ops, fin) in enumerate(((["lock", "del"], "commit"), (["lock", "del", "set2"], "commit"), (["lock", "set"], "commit"),
+                                    (["lock", "del", "set2"], "rollback"), (["del", "set2"], "commit"))):
+        pr = list(B)
+        for o in ops:
+            pr.append({"lock": L(["k1"]), "del": {"t": "t1", "op": "del", "k": "k1"}, "set": {"t": "t1", "op": "set", "k": "k1", "v": "y"},
+                       "set2": {"t": "t1", "op": "set", "k": "k2", "v": "x"}}[o])
+        out.append(sc(20 + j, pr + [A(fin), {"t": "t2", "op": "rollback"}]))
+        out[-1]["txns"]["t1"]["filter_keys"] = ["k1"]
+    # region errors on the lock / rollback / clean-up requests of t1 (fabricated, never a loss), splits between attempts
+    out.append(sc(30, B + [{"t": "t2", "op": "lock", "ks": ["k3"], "wait": -1}, L(["k1", "k2", "k3"]), A("rollback"), {"t": "t2", "op": "rollback"}], splits=("k2", "k3")))
+    out[-1]["faults"] = [{"at": i, "kind": "regionerr:" + k} for i, k in ((0, "EpochNotMatch"), (2, "NotLeader"), (4, "RegionNotFound"), (5, "StaleCommand"), (7, "EpochNotMatch"))]
+    out.append(sc(31, B + [A("agg_start"), L(["k1"]), {"t": "t1", "op": "split", "k": "k2"}, L(["k2"]), L(["k3"]), {"t": "t1", "op": "split", "k": "k3"}, A("agg_retry"), L(["k1"]), {"t": "t1", "op": "split", "k": "k1"}, A("agg_done"), A("commit"), {"t": "t2", "op": "rollback"}]))
+    out[-1]["faults"] = [{"at": i, "kind": "regionerr:" + k} for i, k in ((1, "EpochNotMatch"), (3, "NotLeader"), (4, "EpochNotMatch"), (6, "StaleCommand"), (8, "RegionNotFound"))]
+    # a failed optimistic commit whose clean-up (BatchRollback) meets region errors and must be retried
+    out.append(sc(35, B + [{"t": "t1", "op": "set", "k": "k1", "v": "a"}, {"t": "t1", "op": "set", "k": "k3", "v": "b"}, {"t": "t1", "op": "set", "k": "k5", "v": "e"}, {"t": "t2", "op": "set", "k": "k5", "v": "c"}, {"t": "t2", "op": "commit"}, {"t": "t1", "op": "commit"}], splits=("k2", "k4")))
+    out[-1]["txns"]["t1"]["pessimistic"] = False
+    # (EpochNotMatch reaches the action's own region-error handling; NotLeader / StaleCommand are retried inside the sender)
+    out[-1]["faults"] = [{"at": i, "kind": "regionerr:EpochNotMatch"} for i in (3, 4, 5, 6, 8)]
+    # deadlock: t2 holds k2 and has asked for k1 (held by t1); t1 asking for k2 closes the cycle
+    out.append(sc(32, B + [L(["k1"]), {"t": "t2", "op": "lock", "ks": ["k2"], "wait": -1}, {"t": "t2", "op": "lock", "ks": ["k1"], "wait": 30}, L(["k3", "k2"], wait=30), A("commit"), {"t": "t2", "op": "rollback"}], splits=("k2", "k3")))
+    # expiry of the previous attempt's locks (managed TTL 25 ms, 45 ms pause): the re-lock must be requested again
+    out.append(sc(33, [{"t": "t1", "op": "begin"}, A("agg_start"), L(["k1"]), L(["k4"]), A("agg_retry"), {"t": "t1", "op": "sleep", "wait": 45}, L(["k1"]), A("agg_done"), A("rollback")]))
+    out[-1]["managed_ttl"] = 25
+    out.append(sc(34, [{"t": "t1", "op": "begin"}, A("agg_start"), L(["k1"]), A("agg_retry"), L(["k1"]), A("agg_retry"), {"t": "t1", "op": "sleep", "wait": 45}, L(["k1"], rv=True), A("agg_cancel"), A("commit")]))
+    out[-1]["managed_ttl"] = 25
     out.append(sc(13, B + [{"t": "t2", "op": "set", "k": "k1", "v": "c"}, A("agg_start"), A("fu_take"), {"t": "t2", "op": "commit"}, L(["k1"], v="fu_saved"), L(["k2"]), A("agg_retry"), L(["k2"], ce=True), A("agg_done"), A("rollback")]))
     return out
 
@@ -189,6 +256,8 @@ def gen_agg_program(rng, idx):
                     st["v"] = "fu_saved"
                 prog.append(st)
             used.append(k)
+            if rng.random() < 0.12:
+                prog.append({"t": "t1", "op": "split", "k": rng.choice(KEYS)})
             if not agg:
                 break
         if not agg:
@@ -210,8 +279,8 @@ def gen_agg_program(rng, idx):
     prog.append({"t": "t1", "op": rng.choice(["commit", "commit", "rollback"])})
     if not t2_done:
         prog.append({"t": "t2", "op": rng.choice(["commit", "rollback"])})
-    return {"id": f"a{idx}", "backend": BACKEND, "splits": splits, "preload": preload, "batch_size": rng.choice([0, 0, 24]),
-            "txn": {"mode": "2pc", "ops": []}, "txns": txns, "program": prog, "keys": KEYS, "black_from": -1}
+    return decorate(rng, {"id": f"a{idx}", "backend": BACKEND, "splits": splits, "preload": preload, "batch_size": rng.choice([0, 0, 24]),
+            "txn": {"mode": "2pc", "ops": []}, "txns": txns, "program": prog, "keys": KEYS, "black_from": -1})
 
 
 def leftovers(r):
@@ -224,55 +293,22 @@ def leftovers(r):
     return bad
 
 
-F19 = "agg_relock_keyexists_drops_prev_key"
-F19B = "agg_relock_loie_absent_drops_prev_key"
-
-
-def dropped_prev_keys(sc, exp):
-    """the classification predicate of the known findings, computed from the executed steps of t1 (exp = expectations of
-    txnlab.locks_replay_lines: op, err, keys sent to the store): keys that were locked in an aggressive-locking attempt,
-    moved to the previous-attempt set by agg_retry and then re-locked by a single-key call that sent a request and
-    (F19) failed with key-exists / write-conflict, or (F19b) succeeded under lock-only-if-exists with the key absent.
-    A key that is later locked again successfully leaves the sets."""
-    in_agg, cur, prev, f19, f19b = False, set(), set(), set(), set()
+def filtered_locked_deletes(sc, exp):
+    """coverage counter for the KVFilter regression class (finding F31, fixed): keys that, when Commit was called,
+    were flagged locked (client bookkeeping), held an empty value (their last buffered write was a Delete) and are
+    declared unnecessary by the transaction's KVFilter"""
+    fk = set(sc["txns"]["t1"].get("filter_keys") or [])
+    last, out, prev_bk = {}, set(), None
     for x in exp:
-        op, st, err = x["op"], sc["program"][x["i"]], x["err"]
-        panic = False
-        if op == "agg_start":
-            if not in_agg:
-                in_agg, cur, prev = True, set(), set()
-        elif op == "agg_retry":
-            if in_agg:
-                prev, cur = cur, set()
-        elif op in ("agg_done", "agg_cancel"):
-            in_agg, cur, prev = False, set(), set()
-        elif op in ("lock", "insert") and x["rpc_keys"] is not None:
-            ks = st.get("ks") or [st["k"]]
-            if in_agg and len(ks) > 1:
-                in_agg, cur, prev = False, set(), set()
-            # a dropped key is tracked again by a later successful call that really locks it, and released by the
-            # asynchronous rollback of a later failing call that names it
-            for k in ks:
-                again = not err and not (st.get("loie") and (x.get("vals") or {}).get(k, "?") is None)
-                rolled = bool(err) and bool(x["rpc_keys"]) and (len(ks) > 1 or err not in ("err:exists", "err:conflict"))
-                if (again or rolled) and not (in_agg and len(ks) == 1 and k in prev):
-                    f19.discard(k); f19b.discard(k)
-            if in_agg and len(ks) == 1:
-                k = ks[0]
-                sent = bool(x["rpc_keys"])
-                if k in prev and sent:
-                    prev.discard(k)
-                    if err in ("err:exists", "err:conflict"):
-                        f19.add(k)
-                    elif not err and st.get("loie") and (x.get("vals") or {}).get(k, "?") is None:
-                        f19b.add(k)
-                    elif not err:
-                        cur.add(k)
-                elif k in prev and not sent and not err:
-                    prev.discard(k); cur.add(k)
-                elif not err and sent:
-                    cur.add(k)
-    return f19, f19b
+        st = sc["program"][x["i"]]
+        if x["op"] in ("set", "del") and not x["err"]:
+            last[st["k"]] = x["op"]
+        elif x["op"] == "insert" and not x["err"]:
+            last[st["k"]] = "set"
+        elif x["op"] == "commit" and prev_bk is not None:
+            out = {k for k in prev_bk["locked"] if k in fk and last.get(k) == "del"}
+        prev_bk = x["bk"]
+    return out
 
 
 def run_model(mr, scs, res):
@@ -309,23 +345,10 @@ def judge(v, sc, r, mres, counts):
     mbad, mleft, exp = mres if mres else ([], None, [])
     n = 0
     if bad:
-        keys1 = sorted(x["key"] for x in bad if x["txn"] == "t1")
-        others = [x for x in bad if x["txn"] != "t1"]
-        f19, f19b = dropped_prev_keys(sc, exp) if exp else (set(), set())
-        base = {"kind": "property-oracle", "scenario": sc, "steps": [{k: w for k, w in s.items() if k != "bk"} for s in r.get("steps", [])],
-                "txns": r.get("txns"), "model_leftover": mleft, "model_vs_client": mbad[:5]}
-        rest = [k for k in keys1 if k not in f19 and k not in f19b]
-        agree = mleft == keys1 and not mbad
-        for cls, ks in ((F19, [k for k in keys1 if k in f19]), (F19B, [k for k in keys1 if k in f19b and k not in f19])):
-            if ks:
-                n += 1
-                counts["known:" + cls] = counts.get("known:" + cls, 0) + 1
-                # the class only counts when the as-is model predicts exactly this leftover set and nothing else is left
-                v.violation(dict(base, violated=[f"lock of finished transaction t1 left on {ks} (previous-attempt key dropped by a re-lock)"],
-                                 finding_class=cls if (agree and not rest and not others) else "unclassified"))
-        if rest or others:
-            n += 1
-            v.violation(dict(base, violated=["lock of a finished transaction left behind: %s" % ([x for x in bad if x["key"] in rest or x["txn"] != "t1"])]))
+        n += 1
+        v.violation({"kind": "property-oracle", "scenario": sc, "steps": [{k: w for k, w in s.items() if k != "bk"} for s in r.get("steps", [])],
+                     "txns": r.get("txns"), "model_leftover": mleft, "model_vs_client": mbad[:5],
+                     "violated": ["lock of a finished transaction left behind: %s" % bad]})
     if mres is not None:
         lo1 = sorted(x["key"] for x in bad if x["txn"] == "t1")
         allbad = list(mbad) + ([f"final lock set of t1: model={mleft} audit={lo1}"] if mleft != lo1 else [])
@@ -368,7 +391,7 @@ def main(tier, replay):
         judge(v, sc, r, mres, counts)
         return v.finish()
     n = 700 if tier == "quick" else 6000
-    scs = directed() + [gen_program(rng, i) for i in range(n)] + [gen_agg_program(rng, i) for i in range(n // 2)]
+    scs = directed() + [gen_program(rng, i) for i in range(n)] + [gen_agg_program(rng, i) for i in range(n // 2)] + [gen_expiry_program(rng, i) for i in range(n // 12)]
     res = txnlab.run_scenarios(exe, scs)
     mall = run_model(mr, scs, res) if mr else {}
     nviol, dist, distinct, steps_cmp = 0, {}, set(), 0
@@ -387,13 +410,27 @@ def main(tier, replay):
         if errs:
             distinct.add(json.dumps(sc["program"]))
         mres = mall.get(sc["id"])
+        for e in r.get("trace", []):
+            f = e.get("f") or {}
+            if e["kind"] == "deliver" and e.get("client") == "c1" and "regionerr" in f:
+                kk = "regionerr:" + str(e.get("cmd")) + (":fabricated" if f.get("fabricated") else "")
+                counts[kk] = counts.get(kk, 0) + 1
+        if sc["txns"]["t1"].get("filter_keys"):
+            counts["programs:kvfilter"] = counts.get("programs:kvfilter", 0) + 1
+            if filtered_locked_deletes(sc, mres[2] if mres else []):
+                counts["programs:kvfilter:locked-delete-filtered"] = counts.get("programs:kvfilter:locked-delete-filtered", 0) + 1
         if mres:
             steps_cmp += len(mres[2])
             for x in mres[2]:
                 if x["op"] in ("lock", "insert") and x["rpc_keys"] is not None:
                     p = x["line"].split("\t")
+                    exflag, p = p[-1], p[:-1]
+                    if x.get("X"):
+                        counts["lock:agg:expiry-decided-the-request"] = counts.get("lock:agg:expiry-decided-the-request", 0) + 1
                     cls = "lock:" + ("agg:" if x["bk"]["agg"] else "") + ("no-request" if not x["rpc_keys"] else "request") + (":" + p[-1] if p[-1] != "ok" else "")
                     counts[cls] = counts.get(cls, 0) + 1
+                    if exflag == "1":
+                        counts["lock:agg:expiry-fed"] = counts.get("lock:agg:expiry-fed", 0) + 1
                     if p[-2] != "0":
                         counts["lock:locked-with-conflict"] = counts.get("lock:locked-with-conflict", 0) + 1
                     if p[-3] != "-" and p[6] == "1":
@@ -409,5 +446,5 @@ def main(tier, replay):
     rc = v.finish()
     vlib.write_evidence(PID, cov, t0, violations=len(v.violations), level="proof",
                         assumptions=["store = in-repo mock store (environment)", "quiescence = no transactional RPC of the client in flight or issued for 40 ms",
-                                     "theorems assume the API contract wf_run incl. relock_safe (violations of relock_safe = known findings F19/F19b)"])
+                                     "theorems assume the documented API contract wf_run only (valid transaction, non-decreasing for-update ts, no commit/rollback while an attempt holds current keys)"])
     return rc
